@@ -1,0 +1,410 @@
+//go:build verif && !single_cert
+// +build verif,!single_cert
+
+package gmtls
+
+import (
+	"crypto"
+	"errors"
+	"fmt"
+	"sync/atomic"
+)
+
+// Scripted malicious peers for the verification harness (build tag "verif" only; property C08). Nothing here is
+// reachable from, or changes the behaviour of, the library's own code paths: these are copies of the GM full
+// handshake of gm_handshake_server_double.go / gm_handshake_client_double.go (as of the verified tree) with the
+// listed deviations, so that an attacker that omits a message or sends a wrong Finished keeps an otherwise
+// consistent transcript — which a man in the middle cannot do.
+
+// VerifEvilServer lists the deviations of the scripted server.
+type VerifEvilServer struct {
+	OmitServerKeyExchange bool   // do not send (nor hash) the ServerKeyExchange message
+	FinishedXor           []byte // xor-ed into the verify_data of its Finished
+}
+
+func verifXor(v, x []byte) []byte {
+	out := append([]byte{}, v...)
+	for i := range out {
+		if i < len(x) {
+			out[i] ^= x[i]
+		}
+	}
+	return out
+}
+
+// VerifEvilServerHandshake runs the GM server handshake (full handshake only) with the deviations k.
+func (c *Conn) VerifEvilServerHandshake(k VerifEvilServer) error {
+	c.handshakeMutex.Lock()
+	defer c.handshakeMutex.Unlock()
+	c.in.Lock()
+	defer c.in.Unlock()
+	err := c.verifEvilServerHandshakeGM(k)
+	if err != nil {
+		c.flush()
+	}
+	c.handshakeErr = err
+	return err
+}
+
+func (c *Conn) verifEvilServerHandshakeGM(k VerifEvilServer) error {
+	c.config.serverInitOnce.Do(func() { c.config.serverInit(nil) })
+	hs := serverHandshakeStateGM{c: c}
+	isResume, err := hs.readClientHello()
+	if err != nil {
+		return err
+	}
+	if isResume {
+		return errors.New("verif: the scripted server only performs full handshakes")
+	}
+	c.buffering = true
+	if err := hs.verifEvilFullHandshake(k); err != nil {
+		return err
+	}
+	if err := hs.establishKeys(); err != nil {
+		return err
+	}
+	if err := hs.readFinished(c.clientFinished[:]); err != nil {
+		return err
+	}
+	c.clientFinishedIsFirst = true
+	c.buffering = true
+	if err := hs.sendSessionTicket(); err != nil {
+		return err
+	}
+	if err := hs.verifEvilSendFinished(nil, k.FinishedXor); err != nil {
+		return err
+	}
+	if _, err := c.flush(); err != nil {
+		return err
+	}
+	c.ekm = ekmFromMasterSecret(c.vers, hs.suite, hs.masterSecret, hs.clientHello.random, hs.hello.random)
+	atomic.StoreUint32(&c.handshakeStatus, 1)
+	c.handshakes++
+	return nil
+}
+
+// copy of (*serverHandshakeStateGM).doFullHandshake; deviation: OmitServerKeyExchange
+func (hs *serverHandshakeStateGM) verifEvilFullHandshake(k VerifEvilServer) error {
+	c := hs.c
+
+	if hs.clientHello.ocspStapling && len(hs.cert[0].OCSPStaple) > 0 {
+		hs.hello.ocspStapling = true
+	}
+
+	hs.hello.ticketSupported = hs.clientHello.ticketSupported && !c.config.SessionTicketsDisabled
+	hs.hello.cipherSuite = hs.suite.id
+
+	hs.finishedHash = newFinishedHashGM(hs.suite)
+	if c.config.ClientAuth == NoClientCert {
+		// No need to keep a full record of the handshake if client
+		// certificates won't be used.
+		hs.finishedHash.discardHandshakeBuffer()
+	}
+	hs.finishedHash.Write(hs.clientHello.marshal())
+	hs.finishedHash.Write(hs.hello.marshal())
+	if _, err := c.writeRecord(recordTypeHandshake, hs.hello.marshal()); err != nil {
+		return err
+	}
+
+	certMsg := new(certificateMsg)
+	//certMsg.certificates = hs.cert.Certificate
+	for i := 0; i < len(hs.cert); i++ {
+		certMsg.certificates = append(certMsg.certificates, hs.cert[i].Certificate...)
+	}
+	hs.finishedHash.Write(certMsg.marshal())
+	if _, err := c.writeRecord(recordTypeHandshake, certMsg.marshal()); err != nil {
+		return err
+	}
+
+	if hs.hello.ocspStapling {
+		certStatus := new(certificateStatusMsg)
+		certStatus.statusType = statusTypeOCSP
+		certStatus.response = hs.cert[0].OCSPStaple
+		hs.finishedHash.Write(certStatus.marshal())
+		if _, err := c.writeRecord(recordTypeHandshake, certStatus.marshal()); err != nil {
+			return err
+		}
+	}
+
+	keyAgreement := hs.suite.ka(c.vers)
+	skx, err := keyAgreement.generateServerKeyExchange(c.config, &hs.cert[0], &hs.cert[1], hs.clientHello, hs.hello)
+	if err != nil {
+		c.sendAlert(alertHandshakeFailure)
+		return err
+	}
+	if skx != nil && !k.OmitServerKeyExchange {
+		hs.finishedHash.Write(skx.marshal())
+		if _, err := c.writeRecord(recordTypeHandshake, skx.marshal()); err != nil {
+			return err
+		}
+	}
+
+	if c.config.ClientAuth >= RequestClientCert {
+		// Request a client certificate
+		certReq := new(certificateRequestMsgGM)
+		certReq.certificateTypes = []byte{
+			byte(certTypeRSASign),
+			byte(certTypeECDSASign),
+		}
+		//if c.vers >= VersionTLS12 {
+		//	certReq.hasSignatureAndHash = true
+		//	certReq.supportedSignatureAlgorithms = supportedSignatureAlgorithms
+		//}
+
+		// An empty list of certificateAuthorities signals to
+		// the client that it may send any certificate in response
+		// to our request. When we know the CAs we trust, then
+		// we can send them down, so that the client can choose
+		// an appropriate certificate to give to us.
+		if c.config.ClientCAs != nil {
+			certReq.certificateAuthorities = c.config.ClientCAs.Subjects()
+		}
+		hs.finishedHash.Write(certReq.marshal())
+		if _, err := c.writeRecord(recordTypeHandshake, certReq.marshal()); err != nil {
+			return err
+		}
+	}
+
+	helloDone := new(serverHelloDoneMsg)
+	hs.finishedHash.Write(helloDone.marshal())
+	if _, err := c.writeRecord(recordTypeHandshake, helloDone.marshal()); err != nil {
+		return err
+	}
+
+	if _, err := c.flush(); err != nil {
+		return err
+	}
+
+	var pub crypto.PublicKey // public key for client auth, if any
+
+	msg, err := c.readHandshake()
+	if err != nil {
+		return err
+	}
+
+	var ok bool
+	// If we requested a client certificate, then the client must send a
+	// certificate message, even if it's empty.
+	if c.config.ClientAuth >= RequestClientCert {
+		if certMsg, ok = msg.(*certificateMsg); !ok {
+			c.sendAlert(alertUnexpectedMessage)
+			return unexpectedMessageError(certMsg, msg)
+		}
+		hs.finishedHash.Write(certMsg.marshal())
+
+		if len(certMsg.certificates) == 0 {
+			// The client didn't actually send a certificate
+			switch c.config.ClientAuth {
+			case RequireAnyClientCert, RequireAndVerifyClientCert:
+				c.sendAlert(alertBadCertificate)
+				return errors.New("tls: client didn't provide a certificate")
+			}
+		}
+
+		pub, err = hs.processCertsFromClient(certMsg.certificates)
+		if err != nil {
+			return err
+		}
+
+		msg, err = c.readHandshake()
+		if err != nil {
+			return err
+		}
+	}
+
+	// Get client key exchange
+	ckx, ok := msg.(*clientKeyExchangeMsg)
+	if !ok {
+		c.sendAlert(alertUnexpectedMessage)
+		return unexpectedMessageError(ckx, msg)
+	}
+	hs.finishedHash.Write(ckx.marshal())
+
+	preMasterSecret, err := keyAgreement.processClientKeyExchange(c.config, &hs.cert[1], ckx, c.vers)
+	if err != nil {
+		c.sendAlert(alertHandshakeFailure)
+		return err
+	}
+	hs.masterSecret = masterFromPreMasterSecret(c.vers, hs.suite, preMasterSecret, hs.clientHello.random, hs.hello.random)
+	if err := c.config.writeKeyLog(hs.clientHello.random, hs.masterSecret); err != nil {
+		c.sendAlert(alertInternalError)
+		return err
+	}
+
+	// If we received a client cert in response to our certificate request message,
+	// the client will send us a certificateVerifyMsg immediately after the
+	// clientKeyExchangeMsg. This message is a digest of all preceding
+	// handshake-layer messages that is signed using the private key corresponding
+	// to the client's certificate. This allows us to verify that the client is in
+	// possession of the private key of the certificate.
+	if len(c.peerCertificates) > 0 {
+		msg, err = c.readHandshake()
+		if err != nil {
+			return err
+		}
+		certVerify, ok := msg.(*certificateVerifyMsg)
+		if !ok {
+			c.sendAlert(alertUnexpectedMessage)
+			return unexpectedMessageError(certVerify, msg)
+		}
+
+		// Determine the signature type.
+		_, sigType, hashFunc, err := pickSignatureAlgorithm(pub, []SignatureScheme{certVerify.signatureAlgorithm}, supportedSignatureAlgorithms, c.vers)
+		if err != nil {
+			c.sendAlert(alertIllegalParameter)
+			return err
+		}
+
+		var digest []byte
+		if digest, err = hs.finishedHash.hashForClientCertificate(sigType, hashFunc, hs.masterSecret); err == nil {
+			err = verifyHandshakeSignature(sigType, pub, hashFunc, digest, certVerify.signature)
+		}
+		if err != nil {
+			c.sendAlert(alertBadCertificate)
+			return errors.New("tls: could not validate signature of connection nonces: " + err.Error())
+		}
+
+		hs.finishedHash.Write(certVerify.marshal())
+	}
+
+	hs.finishedHash.discardHandshakeBuffer()
+
+	return nil
+}
+
+// copy of (*serverHandshakeStateGM).sendFinished; deviation: the verify_data is xor-ed
+func (hs *serverHandshakeStateGM) verifEvilSendFinished(out []byte, xor []byte) error {
+	c := hs.c
+
+	if _, err := c.writeRecord(recordTypeChangeCipherSpec, []byte{1}); err != nil {
+		return err
+	}
+
+	finished := new(finishedMsg)
+	finished.verifyData = verifXor(hs.finishedHash.serverSum(hs.masterSecret), xor)
+	hs.finishedHash.Write(finished.marshal())
+	if _, err := c.writeRecord(recordTypeHandshake, finished.marshal()); err != nil {
+		return err
+	}
+
+	c.cipherSuite = hs.suite.id
+	copy(out, finished.verifyData)
+
+	return nil
+}
+
+// VerifEvilClientHandshake runs the GM client handshake (full handshake only); its Finished carries the right
+// verify_data xor-ed with finishedXor.
+func (c *Conn) VerifEvilClientHandshake(finishedXor []byte) error {
+	c.handshakeMutex.Lock()
+	defer c.handshakeMutex.Unlock()
+	c.in.Lock()
+	defer c.in.Unlock()
+	err := c.verifEvilClientHandshakeGM(finishedXor)
+	if err != nil {
+		c.flush()
+	}
+	c.handshakeErr = err
+	return err
+}
+
+func (c *Conn) verifEvilClientHandshakeGM(xor []byte) error {
+	if c.config == nil || c.config.GMSupport == nil {
+		return errors.New("verif: the scripted client is a GM client")
+	}
+	c.vers = VersionGMSSL
+	hello, err := makeClientHelloGM(c.config)
+	if err != nil {
+		return err
+	}
+	hs := &clientHandshakeStateGM{c: c, hello: hello}
+	// copy of (*clientHandshakeStateGM).handshake, full-handshake branch
+	if _, err := c.writeRecord(recordTypeHandshake, hs.hello.marshal()); err != nil {
+		return err
+	}
+	msg, err := c.readHandshake()
+	if err != nil {
+		return err
+	}
+	var ok bool
+	if hs.serverHello, ok = msg.(*serverHelloMsg); !ok {
+		c.sendAlert(alertUnexpectedMessage)
+		return unexpectedMessageError(hs.serverHello, msg)
+	}
+	if hs.serverHello.vers != VersionGMSSL {
+		hs.c.sendAlert(alertProtocolVersion)
+		return fmt.Errorf("tls: server selected unsupported protocol version %x", hs.serverHello.vers)
+	}
+	if err = hs.pickCipherSuite(); err != nil {
+		return err
+	}
+	isResume, err := hs.processServerHello()
+	if err != nil {
+		return err
+	}
+	if isResume {
+		return errors.New("verif: the scripted client only performs full handshakes")
+	}
+	hs.finishedHash = newFinishedHashGM(hs.suite)
+	if len(c.config.Certificates) == 0 && c.config.GetClientCertificate == nil {
+		hs.finishedHash.discardHandshakeBuffer()
+	}
+	hs.finishedHash.Write(hs.hello.marshal())
+	hs.finishedHash.Write(hs.serverHello.marshal())
+	c.buffering = true
+	if err := hs.doFullHandshake(); err != nil {
+		return err
+	}
+	if err := hs.establishKeys(); err != nil {
+		return err
+	}
+	if err := hs.verifEvilSendFinished(c.clientFinished[:], xor); err != nil {
+		return err
+	}
+	if _, err := c.flush(); err != nil {
+		return err
+	}
+	c.clientFinishedIsFirst = true
+	if err := hs.readSessionTicket(); err != nil {
+		return err
+	}
+	if err := hs.readFinished(c.serverFinished[:]); err != nil {
+		return err
+	}
+	c.ekm = ekmFromMasterSecret(c.vers, hs.suite, hs.masterSecret, hs.hello.random, hs.serverHello.random)
+	atomic.StoreUint32(&c.handshakeStatus, 1)
+	c.handshakes++
+	return nil
+}
+
+// copy of (*clientHandshakeStateGM).sendFinished; deviation: the verify_data is xor-ed
+func (hs *clientHandshakeStateGM) verifEvilSendFinished(out []byte, xor []byte) error {
+	c := hs.c
+
+	if _, err := c.writeRecord(recordTypeChangeCipherSpec, []byte{1}); err != nil {
+		return err
+	}
+	if hs.serverHello.nextProtoNeg {
+		nextProto := new(nextProtoMsg)
+		proto, fallback := mutualProtocol(c.config.NextProtos, hs.serverHello.nextProtos)
+		nextProto.proto = proto
+		c.clientProtocol = proto
+		c.clientProtocolFallback = fallback
+
+		hs.finishedHash.Write(nextProto.marshal())
+		if _, err := c.writeRecord(recordTypeHandshake, nextProto.marshal()); err != nil {
+			return err
+		}
+	}
+
+	finished := new(finishedMsg)
+	finished.verifyData = verifXor(hs.finishedHash.clientSum(hs.masterSecret), xor)
+	hs.finishedHash.Write(finished.marshal())
+	if _, err := c.writeRecord(recordTypeHandshake, finished.marshal()); err != nil {
+		return err
+	}
+	copy(out, finished.verifyData)
+	return nil
+}
+
+var _ crypto.PublicKey
